@@ -9,7 +9,11 @@
 //        optional SM block, a token `d` keeps the example's value
 //        -> M OK <g1 g2 vd vu Mu M1 M2 ml2 me2 Ye TYe Ae MM | amu1LChi0 amu1LChipm amu1L |
 //                 MChi[4] MCha[2] MSm[2] MSvmL>                (g1 GUT normalised)
+//                 then ` NTR OK <calculate_amu_1loop_non_tan_beta_resummed | the 13 Lagrangian parameters of a copy after
+//                 convert_to_non_tan_beta_resummed() | amu1LChi0(copy) amu1LChipm(copy)>`  or ` NTR EXC <class> <what>`
 //           M EXC <class> <what>          library threw
+//   MR ... / MC ...   same arguments and output as M, but evaluated on the process-wide persistent model object that
+//        is moved from point to point through the public setters (MR) resp. on a copy of that object (MC)
 //           M PROB <problems/warnings>    have_problem() or have_warning() after calculate_masses()
 //
 //   T <basis 0=mass|1=gauge> <type 1..6> <17 reals> <Delta_l 9 row-major> <Pi_l 9 row-major>
@@ -158,10 +162,22 @@ static int make_onshell(MSSMNoFV_onshell& m, const MP& p, const char* tag) {
    return 0;
 }
 
-static void cmd_M(std::istringstream& in) {
+static void lagrangian(const MSSMNoFV_onshell& m) {
+   pd(m.get_g1()); pd(m.get_g2()); pd(m.get_vd()); pd(m.get_vu()); pd(m.get_Mu());
+   pd(m.get_MassB()); pd(m.get_MassWB()); pd(m.get_ml2(1, 1)); pd(m.get_me2(1, 1));
+   pd(m.get_Ye(1, 1)); pd(m.get_TYe(1, 1)); pd(m.get_Ae(1, 1)); pd(m.get_MM());
+}
+
+// mode 0: fresh object per point; 1: one persistent object per process is moved to the point through the public
+// setters + calculate_masses() (the pattern of examples/example-gm2scan.cpp); 2: a copy of the persistent, already
+// evaluated object is moved to the point (the persistent object itself stays where it is)
+static void cmd_M(std::istringstream& in, int mode) {
+   static MSSMNoFV_onshell chain;
    MP p;
    if (!read_mp(in, p) || !read_optional(in, p.sm.v, 8)) { std::printf("ERR bad M command\n"); return; }
-   MSSMNoFV_onshell m;
+   MSSMNoFV_onshell fresh;
+   MSSMNoFV_onshell copy(chain);
+   MSSMNoFV_onshell& m = mode == 0 ? fresh : mode == 1 ? chain : copy;
    if (make_onshell(m, p, "M")) return;
    double a0, ac, a1;
    try {
@@ -173,14 +189,26 @@ static void cmd_M(std::istringstream& in) {
       return;
    }
    std::printf("M OK");
-   pd(m.get_g1()); pd(m.get_g2()); pd(m.get_vd()); pd(m.get_vu()); pd(m.get_Mu());
-   pd(m.get_MassB()); pd(m.get_MassWB()); pd(m.get_ml2(1, 1)); pd(m.get_me2(1, 1));
-   pd(m.get_Ye(1, 1)); pd(m.get_TYe(1, 1)); pd(m.get_Ae(1, 1)); pd(m.get_MM());
+   lagrangian(m);
    pd(a0); pd(ac); pd(a1);
    for (int i = 0; i < 4; i++) pd(m.get_MChi()(i));
    for (int i = 0; i < 2; i++) pd(m.get_MCha()(i));
    for (int i = 0; i < 2; i++) pd(m.get_MSm()(i));
    pd(m.get_MSvmL());
+   // one-loop result without tan(beta) resummation + the Lagrangian parameters of a copy converted with the
+   // public convert_to_non_tan_beta_resummed() and the two contributions evaluated on that copy
+   try {
+      const double antr = calculate_amu_1loop_non_tan_beta_resummed(m);
+      MSSMNoFV_onshell c(m);
+      c.convert_to_non_tan_beta_resummed();
+      const double c0 = amu1LChi0(c), cc = amu1LChipm(c);
+      std::printf(" NTR OK");
+      pd(antr);
+      lagrangian(c);
+      pd(c0); pd(cc);
+   } catch (const std::exception& e) {
+      std::printf(" NTR EXC %s %s", errclass(e), oneline(e.what()).c_str());
+   }
    std::printf("\n");
 }
 
@@ -374,7 +402,9 @@ int main() {
       std::string c;
       in >> c;
       captured.str("");
-      if (c == "M") cmd_M(in);
+      if (c == "M") cmd_M(in, 0);
+      else if (c == "MR") cmd_M(in, 1);
+      else if (c == "MC") cmd_M(in, 2);
       else if (c == "T") cmd_T(in);
       else if (c == "C") cmd_C(in);
       else std::printf("ERR unknown command %s\n", oneline(c).c_str());
